@@ -10,6 +10,8 @@
 //        ack i               application of library node i calls ReadResetAddressChanged()
 //        restart i           application of library node i calls Restart()
 //        raw <idhex> <len> <8 bytes hex>   arbitrary frame into every started inbox
+//        drain               macro: while some started participant has a pending frame, the lowest such participant processes its oldest
+//                            one; every delivery is announced by dl:<i>; at most 2000 deliveries
 // Output: per op  tx:<i>:<idhex>:<len>:<datahex>  ac:<i>:<0|1>  chg:<i>.<dev>:<old>:<new>:<flag>   separated by "; ", then "|" and per
 // participant  P<i>{on= q=<pending frames> open= ac= d<k>=<addr>/<claim end>/<claim timer enabled>/<namehex> ...}  or  P<i>{on= q= f=<addr>/<namehex>}
 #include "hcommon.h"
@@ -95,6 +97,24 @@ static std::vector<int> addrs(Part *p) {
 }
 static void poll(Part *p) { p->n->ParseMessages(); p->n->relocate(p->ndev); }
 
+static std::vector<std::vector<int>> snapshot() { std::vector<std::vector<int>> v; for (auto p : g_parts) v.push_back(addrs(p)); return v; }
+static void print_changes(const std::vector<std::vector<int>> &before, std::string &out) {
+  for (size_t j = 0; j < g_parts.size(); j++) {
+    std::vector<int> now = addrs(g_parts[j]);
+    for (size_t d = 0; d < now.size(); d++) if (now[d] != before[j][d]) {
+      char b[64]; snprintf(b, 64, "chg:%d.%d:%d:%d:%s ", (int)j, (int)d, before[j][d], now[d], g_parts[j]->lib ? (g_parts[j]->n->AddressChanged ? "1" : "0") : "-"); out += b;
+    }
+  }
+}
+// participant i processes the k-th frame pending for it
+static void do_step(int i, long k) {
+  Part *p = g_parts[i];
+  if (!p->on || k < 0 || k >= (long)p->inbox.size()) return;
+  Frame x = p->inbox[k]; p->inbox.erase(p->inbox.begin() + k);
+  if (p->lib) { p->n->rx.push_back(x); poll(p); }
+  else { std::vector<Frame> fs; p->ref.react(x, fs); for (auto &f : fs) bus_send(i, f); }
+}
+
 static void run_case(const std::string &line) {
   std::vector<std::string> sec; { std::stringstream ss(line); std::string x; while (std::getline(ss, x, '|')) sec.push_back(x); }
   if (line.compare(0, 4, "NET ") != 0 || sec.size() != 3) { printf("badcase\n"); fflush(stdout); return; }
@@ -125,18 +145,25 @@ static void run_case(const std::string &line) {
     std::vector<std::string> t = split(opstr);
     if (!first) out += "; "; first = false;
     if (t.empty()) continue;
-    std::vector<std::vector<int>> before; for (auto p : g_parts) before.push_back(addrs(p));
+    if (t[0] == "drain" && t.size() == 1) {
+      for (int fuel = 2000; fuel > 0; fuel--) {
+        int j = -1; for (size_t q = 0; q < g_parts.size() && j < 0; q++) if (g_parts[q]->on && !g_parts[q]->inbox.empty()) j = (int)q;
+        if (j < 0) break;
+        char b[32]; snprintf(b, 32, "dl:%d ", j); out += b;
+        std::vector<std::vector<int>> before = snapshot();
+        do_step(j, 0);
+        print_changes(before, out);
+      }
+      continue;
+    }
+    std::vector<std::vector<int>> before = snapshot();
     int i = t.size() > 1 ? atoi(t[1].c_str()) : -1;
     Part *p = (i >= 0 && i < (int)g_parts.size() && t[0] != "tick" && t[0] != "cmd" && t[0] != "raw") ? g_parts[i] : 0;
     std::vector<Frame> fs;
     if ((t[0] == "start" || t[0] == "join") && t.size() == 2) {
       if (p && !p->on) { p->on = true; p->inbox.clear(); if (p->lib) poll(p); else { p->ref.start(fs); for (auto &f : fs) bus_send(i, f); } }
     } else if (t[0] == "step" && (t.size() == 2 || t.size() == 3)) {
-      long k = t.size() == 3 ? atol(t[2].c_str()) : 0;
-      if (p && p->on && k >= 0 && k < (long)p->inbox.size()) {
-        Frame x = p->inbox[k]; p->inbox.erase(p->inbox.begin() + k);
-        if (p->lib) { p->n->rx.push_back(x); poll(p); } else { p->ref.react(x, fs); for (auto &f : fs) bus_send(i, f); }
-      }
+      if (p) do_step(i, t.size() == 3 ? atol(t[2].c_str()) : 0);
     } else if (t[0] == "tick" && t.size() == 2) {
       verif_now_ms += strtoull(t[1].c_str(), 0, 10);
       for (auto q : g_parts) if (q->on && q->lib) poll(q);
@@ -155,12 +182,7 @@ static void run_case(const std::string &line) {
       std::vector<uint8_t> d = unhex(t[3]); memset(f.buf, 0, 8); for (size_t b = 0; b < d.size() && b < 8; b++) f.buf[b] = d[b];
       to_all(f);
     } else out += "badop ";
-    for (size_t j = 0; j < g_parts.size(); j++) {
-      std::vector<int> now = addrs(g_parts[j]);
-      for (size_t d = 0; d < now.size(); d++) if (now[d] != before[j][d]) {
-        char b[64]; snprintf(b, 64, "chg:%d.%d:%d:%d:%s ", (int)j, (int)d, before[j][d], now[d], g_parts[j]->lib ? (g_parts[j]->n->AddressChanged ? "1" : "0") : "-"); out += b;
-      }
-    }
+    print_changes(before, out);
   }
   out += "|";
   for (size_t j = 0; j < g_parts.size(); j++) {
